@@ -1,7 +1,7 @@
 #!/usr/bin/env python3
 """Validate seeded changes written by sub-agents to /tmp/mut<R>/<ID>/out/{A,B,C}.diff (+ demo_X.py, notes.md) and
 keep the confirmed ones as seeded/<ID>-{C,D,E}/ (round 2) or seeded/<ID>-{F,G,H}/ (round 3).
-usage: tools/ingest2.py [--round3] [--all] ID..."""
+usage: tools/ingest2.py [--round3|--round4] [--all] ID..."""
 import json
 import os
 import subprocess
@@ -9,8 +9,8 @@ import sys
 
 VERIF = os.path.dirname(os.path.dirname(os.path.abspath(__file__)))
 flags = [a for a in sys.argv[1:] if a.startswith('--')]
-ROUND = 3 if '--round3' in flags else 2
-MAP = {'A': 'F', 'B': 'G', 'C': 'H'} if ROUND == 3 else {'A': 'C', 'B': 'D', 'C': 'E'}
+ROUND = 4 if '--round4' in flags else 3 if '--round3' in flags else 2
+MAP = {2: {'A': 'C', 'B': 'D', 'C': 'E'}, 3: {'A': 'F', 'B': 'G', 'C': 'H'}, 4: {'A': 'I', 'B': 'J', 'C': 'K'}}[ROUND]
 for pid in [a for a in sys.argv[1:] if not a.startswith('--')]:
     out = '/tmp/mut%d/%s/out' % (ROUND, pid)
     try:
